@@ -1435,12 +1435,18 @@ func (p *Parser) parseOrderBy(stmt *SelectStatement) error {
 	orderLexer := NewLexer(p.input)
 	orderLexer.SetErrorRecovery(NewErrorRecovery(nil))
 	orderPos := -1
+	depth := 0 // an ORDER BY inside parentheses (MATCH_RECOGNIZE (... ORDER BY ts ...)) is not the statement's
 	for {
 		tok := orderLexer.NextToken()
 		if tok.Type == TokenEOF {
 			break
 		}
-		if tok.Type == TokenOrder {
+		if tok.Type == TokenLParen {
+			depth++
+		} else if tok.Type == TokenRParen && depth > 0 {
+			depth--
+		}
+		if tok.Type == TokenOrder && depth == 0 {
 			orderPos = tok.Pos
 			break
 		}
